@@ -116,6 +116,11 @@ def apply_listop(lst, method, args):
     return None
 
 
+def wire(v):
+    """what a value looks like on the wire / in Tor: list elements as text"""
+    return [str(x) for x in v] if isinstance(v, list) else v
+
+
 class Model(object):
     def __init__(self, table):
         self.types = {}
@@ -157,15 +162,15 @@ class Model(object):
             if self.kind(n) == "scalar":
                 self.pending[n] = ("assign", validated(self.types[n], st["value"]), self.serial)
             else:
-                self.pending[n] = ("assign", [str(x) for x in st["value"]], self.serial)
+                self.pending[n] = ("assign", list(st["value"]), self.serial)      # elements as assigned (may be ints)
         else:
             lst = self.base(n)
             apply_listop(lst, st["method"], st["args"])
             how = self.pending[n][0] if n in self.pending else "inplace"
-            self.pending[n] = (how, [str(x) for x in lst], self.serial)
+            self.pending[n] = (how, lst, self.serial)
 
     def must(self):
-        return {n: hv for n, hv in self.pending.items() if hv[1] != self.view[n]}
+        return {n: hv for n, hv in self.pending.items() if wire(hv[1]) != wire(self.view[n])}
 
     def ack(self, delivered):
         """Tor accepted `delivered`; an option edited again since it was sent stays pending
@@ -437,7 +442,8 @@ class Run(object):
     def judge_wire(self, data, expected, tor):
         """the bytes one save() wrote vs the reference pending set `expected`"""
         m = self.m
-        must = {n: hv for n, hv in expected.items() if hv[1] != m.view[n]}
+        expected = {n: (hv[0], wire(hv[1]), hv[2]) for n, hv in expected.items()}
+        must = {n: hv for n, hv in expected.items() if hv[1] != wire(m.view[n])}
         any_n = sorted(must)[0] if must else (sorted(expected)[0] if expected else None)
         if not expected:
             self.rec.count("empty_save_checks")
@@ -516,9 +522,10 @@ class Run(object):
                 self.V("accepted-save-failed", "general", {"err": repr(out[0].value)})
             # the store now holds what was delivered (sanity of decode == store semantics)
             for n, (how, want, _ser) in delivered.items():
+                want = wire(want)
                 if m.kind(n) == "commalist":
                     continue
-                if want == m.view[n]:
+                if want == wire(m.view[n]):
                     continue              # no-op change: naming it was optional
                 got = tor.conf.get(n)
                 wl = want if isinstance(want, list) else [want]
